@@ -73,6 +73,8 @@ def num_eq(x, y):
             if math.isinf(x) or math.isinf(y) or math.isnan(x) or math.isnan(y):
                 return x == y
             return abs(x - y) <= 1e-9 * (1.0 + abs(x) + abs(y))
+    if O.is_sym(x) and O.is_sym(y):
+        return O.smart_eq(x, y)
     return O.eq(x, y)
 
 
